@@ -851,6 +851,21 @@ func (e *Engine) valueEq(st *State, x, y Value) Term {
 		return e.isNilTerm(st, y)
 	case VSym:
 		if b, ok := y.(VSym); ok && a.T.Sort == b.T.Sort {
+			if a.T.Sort == SStr {
+				// comparison with the empty string is a statement about the length
+				if la, ok := e.reverseStr(a.T.S); ok && la == "" && a.T.S != b.T.S {
+					if _, lit := e.reverseStr(b.T.S); !lit {
+						st.fact(Ge(App(SInt, "s.len", b.T), IntLit(0)))
+						return Eq(App(SInt, "s.len", b.T), IntLit(0))
+					}
+				}
+				if lb, ok := e.reverseStr(b.T.S); ok && lb == "" && a.T.S != b.T.S {
+					if _, lit := e.reverseStr(a.T.S); !lit {
+						st.fact(Ge(App(SInt, "s.len", a.T), IntLit(0)))
+						return Eq(App(SInt, "s.len", a.T), IntLit(0))
+					}
+				}
+			}
 			return Eq(a.T, b.T)
 		}
 		if _, ok := y.(VNil); ok {
@@ -926,6 +941,9 @@ func (e *Engine) isNilTerm(st *State, v Value) Term {
 	case VAbs:
 		if to, ok := a.Data.(*TimerObj); ok {
 			return to.NilT
+		}
+		if co, ok := a.Data.(*ChanObj); ok {
+			return co.NilT
 		}
 		if a.Kind == "list" {
 			if l, ok := st.heap[a.ID].(*ListObj); ok {
